@@ -73,8 +73,14 @@ def core(n):
   return c
 
 
+CHAIN = [1]     # number of TypeReference links per node (the type checker builds chains of references)
+
+
 def mk(ra, t):
-  R = ra.TypeReference
+  def R(x):
+    r = ra.TypeReference(x)
+    for _ in range(CHAIN[0] - 1): r = ra.TypeReference(r)
+    return r
   if isinstance(t, str): return R(t)
   if t[0] == 'list': return R([mk(ra, t[1])])
   cls = ra.OpenRecord if t[0] == 'open' else ra.ClosedRecord
@@ -249,6 +255,7 @@ def plan(ctx):
   n = len(T)
   nsh = 64 if ctx.thorough else 32
   tasks = [('pairs', ctx.thorough, i, nsh) for i in range(nsh)]
+  tasks += [('pairs-chained', False, i, 32) for i in range(32)]     # the same depth-1 pairs with every reference a chain of two links
   ncore = 90 if ctx.thorough else 44
   tasks += [('triples', ncore, i, 32) for i in range(32)]
   if not ctx.thorough:
@@ -261,6 +268,8 @@ def work(task):
   ra = impl.M('type_inference.research.reference_algebra')
   kind, arg, i, nsh = task
   bad = []; stats = dict(); samples = []
+  CHAIN[0] = 2 if kind == 'pairs-chained' else 1
+  if kind == 'pairs-chained': kind = 'pairs'
   if kind == 'pairs':
     T = term_set(arg)
     n = 0; cmp = 0; clashes = 0; nontriv = 0
